@@ -844,7 +844,7 @@ func TestCheck(t *testing.T) {
 	}
 	r := mon.Start(t, "C06")
 	defer r.Finish()
-	r.Rule("cases: (split) a random batch (1..40 datapoints of all four types, empty names/tags/sources included, one third of the identities re-used from earlier batches with new values, types and tag order) is turned into a MetricMap and Split with 8 (quick) or all 64 (thorough) shard counts from 1..64; every split is checked for exactly-one-shard membership, union == batch (values, tags, source, timestamp, Forwarded) and against a process-wide routing table (count, name, tagsKey) -> shard; (xproc) a fixed list of 300 identities is routed for all 64 counts here and in a second process and compared; (e2e) batches dispatched through a real BackendHandler (1..16 workers, queue 0..4, 1..3 dispatchers) with capturing aggregators: key -> aggregator is a function, nothing lost or duplicated; (e2e-tag) the server's wiring TagHandler (no filters, no or one static tag) -> BackendHandler (1..64 workers) receives 1..3 rounds of 1..5 batches built with MetricMap.Receive in which 2..6 series are spelled in different ways (duplicate tags, other tag order, nil versus empty tag list), by 1..3 concurrent dispatchers; after every round all aggregators are drained (Process barrier on unbuffered queues, or stopping the handler) and, keyed by the series identity (type, name, sorted de-duplicated tag set, source), every series must be held by exactly one aggregator under exactly one key, by the same aggregator in every round and handler instance, with values equal to the reference fold of the round.; (e2e-cancel) a BackendHandler (1..8 workers, queue 0..2) whose capturing aggregators are stalled inside ReceiveMap: 1..3 dispatcher goroutines send queue+2..4 batches each with one cancellable context and run into the full queues, the harness cancels, waits until every cancelled call has returned, lets the same goroutines go on at once with 1..3 batches on a live context, un-stalls the aggregators and dispatches 0..2 more batches itself; every datapoint is tagged with its batch, and every received map must hold series of one batch only, equal to that batch, no series twice, every non-cancelled batch complete, nothing of the cancellable phase after a live-phase map at one aggregator.; (server) the real statsd.Server run in process (RunWithCustomSocket, standalone, 1..9 workers, 20 ms flush) with a fake cloud provider cache in three quarters of the cases (instance tags drawn from the tags clients spell out), an optional static tag, and 2..5 series sent in two rounds under several spellings over both ingestion paths - statsd lines on a scripted UDP socket, and protobuf bodies on /v2/raw whose inner map keys the sender chooses (as a forwarder renders them, unsorted, permuted, or unrelated to the Tags field): every map the flusher hands to the capturing backend is one aggregator's contribution to one flush, and per flush every series identity (type, name, tag set, source after cloud provider and static tags) must be reported by exactly one aggregator under one key, by the same aggregator in every flush, every series sent must be reported and counter totals must equal what was sent. Non-trivial: the batch holds at least two series with the same name and different tag keys; distinct by (kind, set of metric types present, shard count; for e2e-tag also static tag, number of re-spelled series, round; for e2e-cancel a cancelled batch was delivered partly or not at all, by workers, queue size, dispatchers; for server a series was sent under several spellings, by workers, power of two or not, cloud, static tag).")
+	r.Rule("cases: (split) a random batch (1..40 datapoints of all four types, empty names/tags/sources included, one third of the identities re-used from earlier batches with new values, types and tag order) is turned into a MetricMap and Split with 8 (quick) or all 64 (thorough) shard counts from 1..64; every split is checked for exactly-one-shard membership, union == batch (values, tags, source, timestamp, Forwarded) and against a process-wide routing table (count, name, tagsKey) -> shard; (xproc) a fixed list of 300 identities is routed for all 64 counts here and in a second process and compared; (e2e) batches dispatched through a real BackendHandler (1..16 workers, queue 0..4, 1..3 dispatchers) with capturing aggregators: key -> aggregator is a function, nothing lost or duplicated; (e2e-tag) the server's wiring TagHandler (no filters, no or one static tag) -> BackendHandler (1..64 workers) receives 1..3 rounds of 1..5 batches built with MetricMap.Receive in which 2..6 series are spelled in different ways (duplicate tags, other tag order, nil versus empty tag list), by 1..3 concurrent dispatchers; after every round all aggregators are drained (Process barrier on unbuffered queues, or stopping the handler) and, keyed by the series identity (type, name, sorted de-duplicated tag set, source), every series must be held by exactly one aggregator under exactly one key, by the same aggregator in every round and handler instance, with values equal to the reference fold of the round.; (e2e-cancel) a BackendHandler (1..8 workers, queue 0..2) whose capturing aggregators are stalled inside ReceiveMap: 1..3 dispatcher goroutines send queue+2..4 batches each with one cancellable context and run into the full queues, the harness cancels, waits until every cancelled call has returned, lets the same goroutines go on at once with 1..3 batches on a live context, un-stalls the aggregators and dispatches 0..2 more batches itself; every datapoint is tagged with its batch, and every received map must hold series of one batch only, equal to that batch, no series twice, every non-cancelled batch complete, nothing of the cancellable phase after a live-phase map at one aggregator.; (server) the real statsd.Server run in process (RunWithCustomSocket, standalone, 1..9 workers, 20 ms flush) with a fake cloud provider cache in three quarters of the cases (instance tags drawn from the tags clients spell out), an optional static tag, and 2..5 series sent in 2..4 rounds under several spellings over both ingestion paths - statsd lines on a scripted UDP socket, and protobuf bodies on /v2/raw whose inner map keys the sender chooses (as a forwarder renders them, unsorted, permuted, or unrelated to the Tags field): every map the flusher hands to the capturing backend is one aggregator's contribution to one flush, and per flush every series identity (type, name, tag set, source after cloud provider and static tags) must be reported by exactly one aggregator under one key, by the same aggregator in every flush, every series sent must be reported and counter totals, timer values (unique per datapoint) and set members over all flushes must be what was sent; in three fifths of the cases the capturing backend follows a script for the first 1..3 flushes that carry data - it keeps all callbacks of the flush until the harness has sent the next round (ingestion overlapping a flush that waits for its backend), and/or answers every other callback with an error from its own goroutine - and within one flush (hand-overs up to the moment all callbacks have been invoked, including hand-overs made from inside a callback) no aggregator map may be handed over twice. Non-trivial: the batch holds at least two series with the same name and different tag keys; distinct by (kind, set of metric types present, shard count; for e2e-tag also static tag, number of re-spelled series, round; for e2e-cancel a cancelled batch was delivered partly or not at all, by workers, queue size, dispatchers; for server a series was sent under several spellings, by workers, power of two or not, cloud, static tag, flushes held, error answers).")
 	r.Assume("ref.FromMap (harness) flattens a MetricMap faithfully; MetricMap.Receive is used to build the input batches")
 	c := &checker{r: r, split: newRoutingTable(400000), e2e: newRoutingTable(200000), e2eTag: newRoutingTable(200000)}
 
@@ -896,7 +896,7 @@ func TestCheck(t *testing.T) {
 	nSrv := r.N(240, 12000)
 	for i := 0; i < nSrv; i++ {
 		sc := genSrvCase(srng)
-		r.Case("server case %d: workers=%d cloud=%v static=%q rounds=%d+%d", i, sc.Workers, sc.Cloud, sc.Static, len(sc.Rounds[0]), len(sc.Rounds[1]))
+		r.Case("server case %d: workers=%d cloud=%v static=%q rounds=%d backend-script=%q", i, sc.Workers, sc.Cloud, sc.Static, len(sc.Rounds), sc.Script)
 		c.serverCase(sc)
 	}
 
